@@ -26,6 +26,9 @@ def run(chk):
     sel = (s5.sample_cases(cases, 14 if quick else 200, chk.seed, max_cost=12 if quick else 100)
            + s5.sample_cases(must, 10 if quick else 60, chk.seed + 1, max_cost=12 if quick else 100))
     fsel = s5.sample_cases([c for c in fcases if c["cell"] != "prism"], 8 if quick else 120, chk.seed + 2, max_cost=12 if quick else 100)
+    # prisms: one kernel per facet cell type, so ids / offsets / domains are per kernel, not per integral
+    fsel += s5.sample_cases([c for c in fcases if c["cell"] == "prism" and c["term"] in ("mass", "coef", "fload", "area")],
+                            2 if quick else 12, chk.seed + 3)
     items = []
     for i, c in enumerate(sel):
         items.append({"case": c, "seed": chk.seed * 100003 + i, "scalar": "float64" if i % 3 else "float32", "ninputs": 1,
